@@ -73,6 +73,28 @@ func init() {
 			}
 			return opqBytes(ot("pubuncompT", t.Args[0], 1)), true
 		},
+		// AltForm: the other form of an (abstract) block identifier: a distinct identifier, the same for the same argument
+		"AltForm": func(in *Interp, fr *Frame, a []Value) (Value, bool) {
+			if at, ok := cidAtom(a[0]); ok {
+				return cidOf(in.newAtom("cid", "alt:"+at.Key)), true
+			}
+			if t, ok := opaqueOfStr(a[0].R.([]Value)[0]); ok && t.Ctor == "cidof" {
+				return Value{K: KStruct, R: []Value{opqStr(ot("cidof", ot("altform", t.Args[0])))}}, true
+			}
+			return declined() // a real identifier: the native definition runs
+		},
+		// Native: false under the engine (harness code that only prepares the native run is skipped)
+		"Native": func(in *Interp, fr *Frame, a []Value) (Value, bool) { return mkBool(false), true },
+		// AssumeKeyY: the leading byte of the Y coordinate of this key's public point is zero (or not)
+		"AssumeKeyY": func(in *Interp, fr *Frame, a []Value) (Value, bool) {
+			k := keyOfValue(a[0])
+			if k == nil {
+				unsupported("AssumeKeyY of something that is not a key")
+			}
+			c := in.Ctx
+			in.Assume(c.Cmp(smt.OpEq, in.yShort(k.id), a[1].Term(c)))
+			return Value{}, true
+		},
 		"Cid": func(in *Interp, fr *Frame, a []Value) (Value, bool) {
 			return cidOf(in.newAtom("cid", fmt.Sprintf("c%d", a[0].N))), true
 		},
